@@ -721,3 +721,358 @@ PROPS.update({
                              "ELF section names (external addresses) are not dereferenced by the dump",
                              "the harness does not read VBEModeInfo.memory_model when its byte is not a declared discriminant (known finding F18)"]),
 })
+
+
+# ==========================================================================
+# C04 / C05 / C17 / C18 / C19 (domain mbi), C09 / C11 (domain hdr)
+# ==========================================================================
+class ConformantGen(TM.Gen):
+    """spec-conformant variants of the structured generators (sizes exact, inner counts consistent)"""
+
+    def size_kw(self, natural):
+        return {}
+
+    def mmap(self):
+        r = self.r
+        n = r.choice([0, 1, 2, 3, 5])
+        areas = [(self.u(64), self.u(64), r.choice([0, 1, 2, 3, 4, 5, 6, 0xFFFFFFFF]), r.choice([0, 0xABCD])) for _ in range(n)]
+        return E.t_mmap(areas, 24, r.choice([0, 0, 1]), b"")
+
+    def efi_mmap(self):
+        r = self.r
+        ds = r.choice([40, 40, 48, 56, 64, 128])
+        n = r.choice([0, 1, 2, 3, 4])
+        data = b"".join(E.efi_desc(self.u(32), self.u(64), self.u(64), self.u(64), self.u(64), ds, self.u(32), r.getrandbits(8))
+                        for _ in range(n))
+        return E.t_efi_mmap(ds, 1, data)
+
+    def elf(self):
+        r = self.r
+        es = r.choice([40, 64])
+        n = r.choice([0, 1, 2, 3, 4, 6])
+        ent = E.elf64_entry if es == 64 else E.elf32_entry
+        w = 64 if es == 64 else 32
+        table = b"".join(ent(self.u(32), r.choice(TM.ELF_TYPES), self.u(w), self.u(w), self.u(w), self.u(w), self.u(32),
+                             self.u(32), self.u(w), self.u(w)) for _ in range(n))
+        return E.t_elf(n, es, r.randrange(n) if n else 0, table)
+
+    def framebuffer(self):
+        r = self.r
+        ty = r.choice([0, 1, 2])
+        if ty == 0:
+            n = r.choice([0, 1, 2, 3, 16, 255])
+            buf = E.fb_indexed([tuple(self.rb(3)) for _ in range(n)], n)
+        elif ty == 1:
+            buf = E.fb_rgb(*self.rb(6))
+        else:
+            buf = b""
+        return E.t_framebuffer(self.u(64), self.u(32), self.u(32), self.u(32), self.u(8), ty, buf, 0)
+
+    def acpi_v2(self):
+        r = self.r
+        d = E.rsdp_v2(b"RSD PTR ", r.choice(TM.OEMS), self.u(8), self.u(32), 36, self.u(64),
+                      None if r.random() < 0.7 else self.u(8), None if r.random() < 0.7 else self.u(8), bytes(3))
+        return E.t_acpi_v2(d)
+
+    def vbe(self):
+        t = bytearray(super().vbe())
+        if len(t) > 555 and self.r.random() < 0.8:
+            t[555] %= 8
+        return bytes(t)
+
+
+def gen_C04(rng, tier):
+    dist = {}
+    cases = []
+    g = ConformantGen(rng.getrandbits(32))
+    n = 3000 if tier == "thorough" else 300
+    for _ in range(n):
+        r = g.r
+        x = r.random()
+        if x < 0.3:     # every kind once, shuffled, possibly with duplicates of some
+            ks = list(g.KINDS)
+            r.shuffle(ks)
+            if r.random() < 0.6:
+                ks.remove("efi_bs")
+            ks += [r.choice(g.KINDS) for _ in range(r.choice([0, 1, 3]))]
+            count(dist, "all_kinds")
+        elif x < 0.5:   # one kind, 1..3 instances: the first must be selected
+            k = r.choice(g.KINDS)
+            ks = [k] * r.choice([1, 2, 3])
+            count(dist, "duplicates_of_one_kind")
+        else:
+            ks = [r.choice(g.KINDS + ["module", "module"]) for _ in range(r.choice([0, 1, 2, 4, 6, 9]))]
+            count(dist, "random_subsets")
+        tags = [getattr(g, k)() for k in ks]
+        if r.random() < 0.2:
+            tags.insert(r.randrange(len(tags) + 1), g.custom())
+        cases.append(mbi_case(E.mbi(tags)))
+    # all 256 framebuffer type bytes
+    for b in range(256):
+        cases.append(mbi_case(E.mbi([E.t_framebuffer(0x1000, 1, 2, 3, 8, b, E.fb_rgb(1, 2, 3, 4, 5, 6), 0)])))
+        count(dist, "fb_type_bytes")
+    # EFI memory map x boot-services-not-exited, both orders, with other tags between
+    d = E.efi_desc(7, 0x1000, 0x2000, 3, 0xF)
+    for order in ([E.t_efi_mmap(40, 1, d), E.t_efi_bs()], [E.t_efi_bs(), E.t_efi_mmap(40, 1, d)],
+                  [E.t_efi_mmap(40, 1, d), E.t_cmdline("x"), E.t_efi_bs()], [E.t_efi_mmap(40, 1, d)],
+                  [E.t_efi_bs(), E.t_cmdline("x"), E.t_efi_mmap(40, 1, d), E.t_efi_mmap(48, 1, b"")]):
+        cases.append(mbi_case(E.mbi(order)))
+        count(dist, "efi_bs_orders")
+    return cases, dict(
+        rule="mbi: spec-conformant regions (exact sizes, consistent inner counts) with seeded random field values for all 22 kinds "
+             "- every kind once in shuffled order, 1..3 instances of one kind (the first is selected), random subsets with custom "
+             "tags interleaved; all 256 framebuffer type bytes (exhaustive); EFI memory map x EfiBs in both orders. Compared: every "
+             "getter result (offset, extent) and every accessor value. distinct_nontrivial = distinct (domain, model transcript) pairs.",
+        dist=dist, exhaustive=False)
+
+
+VAR_KINDS = {1: 8, 2: 8, 3: 16, 6: 16, 8: 32, 9: 20, 13: 16, 16: 8, 17: 16, 99: 8}
+
+
+def gen_C05(rng, tier):
+    dist = {}
+    cases = []
+    for typ, fixed in VAR_KINDS.items():
+        top = fixed + (80 if tier == "thorough" else 44)
+        for s in list(range(0, top)) + [top + 8, 200, 4096, 0xFFFFFFFF]:
+            n = max(8, (min(s, 256) + 7) // 8 * 8)
+            body = bytearray(marker(n - 8, start=typ + s))
+            if typ == 6 and len(body) >= 8:
+                body[0:8] = E.u32(24) + E.u32(0)
+            if typ == 17 and len(body) >= 8:
+                body[0:8] = E.u32(rng.choice([40, 48, 8])) + E.u32(1)
+            if typ == 9 and len(body) >= 12:
+                body[0:12] = E.u32(rng.choice([0, 1])) + E.u32(40) + E.u32(0)
+            if typ == 8 and len(body) >= 24:
+                body[21] = rng.choice([0, 1, 2])
+            # padding and the neighbouring tag carry bytes that would be visible if looked at
+            for i in range(max(0, s - 8), len(body)):
+                body[i] = 0xAA
+            t = (E.u32(typ) + E.u32(s) + bytes(body))[:n]
+            region = E.mbi([t, E.t_cmdline("NEXT-TAG")])
+            cases.append(mbi_case(region))
+            count(dist, "kind_%d" % typ)
+    # information request of the header crate: every size 8..40 and beyond
+    for s in list(range(0, 41)) + [44, 48, 100, 0xFFFFFFFF]:
+        n = max(8, (min(s, 128) + 7) // 8 * 8)
+        t = (E.u16(1) + E.u16(rng.choice([0, 1])) + E.u32(s) + marker(n - 8, start=s))[:n]
+        cases.append("hdr " + hx(E.header([t, E.htag(6, 0, b"")])))
+        count(dist, "information_request")
+    return cases, dict(
+        rule="mbi: for each variable-length kind (cmdline, boot loader name, module, memory map, framebuffer, ELF sections, SMBIOS, "
+             "network, EFI memory map, custom/generic) a region with one tag of every declared size 0..fixed+%d and a few huge ones, "
+             "0xAA bytes in its padding, followed by a second tag (exhaustive over the sizes); hdr: information-request tags of every "
+             "size 0..40. Compared: panic or (offset, length, element count) of every exposed part. distinct_nontrivial = distinct "
+             "(domain, model transcript) pairs." % (80 if tier == "thorough" else 44),
+        dist=dist, exhaustive=True)
+
+
+ALPHABET = [0x00, 0x61, 0x7F, 0x80, 0xC2, 0xE0, 0xED, 0xF0, 0xF4, 0xFF, 0xA0, 0xBF]
+
+
+def gen_C17(rng, tier):
+    dist = {}
+    cases = []
+    import itertools
+    strs = [bytes(t) for n in range(0, 5) for t in itertools.product(ALPHABET[:10], repeat=n)]
+    keep = 1.0 if tier == "thorough" else 0.06
+    for s in strs:
+        if len(s) > 2 and rng.random() > keep:
+            continue
+        k = rng.choice([1, 2, 3])
+        fixed = E.u32(1) + E.u32(2) if k == 3 else b""
+        cases.append(mbi_case(E.mbi([E.tag(k, fixed + s + b"\0"), E.t_cmdline("ZZ")])))
+        cases.append(mbi_case(E.mbi([E.tag(k, fixed + s, fill=rng.choice([0, 0x41])), E.t_bootloader("YY")])))
+        count(dist, "short_strings")
+    # declared sizes cutting the string before/at/after its terminator; padding 0x00 vs 0x41; next tag printable
+    texts = [b"hello", b"h\xc3\xa9llo", b"\xe2\x82\xac", b"abcdefg", b"abcdefgh", b"", b"a\0b", b"\xf0\x9d\x84\x9e!"]
+    for text in texts:
+        for k in (1, 2, 3):
+            fixed = E.u32(5) + E.u32(9) if k == 3 else b""
+            full = fixed + text + b"\0"
+            for cut in range(0, len(full) + 10):
+                for fill in (0, 0x41):
+                    size = 8 + cut
+                    n = (max(size, 8 + len(full)) + 7) // 8 * 8
+                    body = bytearray(full + bytes([fill]) * (n - 8 - len(full)))
+                    t = E.u32(k) + E.u32(size) + bytes(body)
+                    t = t[:max(8, (size + 7) // 8 * 8)] if size >= 8 else t[:8]
+                    cases.append(mbi_case(E.mbi([t, E.t_cmdline("NEXTNEXT")])))
+                    count(dist, "cut_sizes")
+    # constructors: NUL-free valid UTF-8 of every length 0..40, multi-byte characters, already terminated
+    if "ctor" in DOMAINS_READY:
+        words = ["", "a", "hello", "héllo € \U0001d11e", "x" * 7, "x" * 8, "x" * 9, "é" * 5]
+        words += ["".join(rng.choice("ab é€\U0001d11ez") for _ in range(n)) for n in range(0, 41)]
+        for w in words:
+            b = w.encode()
+            for k in (1, 2):
+                cases.append("ctor %d %s" % (k, hx(b)))
+                cases.append("ctor %d %s" % (k, hx(b + b"\0")))
+            cases.append("ctor 3 %d %d %s" % (rng.randrange(0, 100), rng.randrange(100, 1 << 32), hx(b)))
+            cases.append("ctor 3 1 2 %s" % hx(b + b"\0"))
+            count(dist, "constructed")
+    return cases, dict(
+        rule="mbi: every byte string of length <= 4 over {00,61,7F,80,C2,E0,ED,F0,F4,FF} (thorough: all; quick: all of length <= 2 "
+             "and a seeded 6% of the rest) as the content of a command-line / boot-loader-name / module tag, with and without "
+             "terminator; eight texts x every declared size cutting before/at/after the terminator x padding 00/41, followed by "
+             "a tag with printable bytes; ctor: the three constructors on NUL-free valid UTF-8 strings of every length 0..40 and "
+             "on already terminated strings. distinct_nontrivial = distinct (domain, model transcript) pairs.",
+        dist=dist, exhaustive=(tier == "thorough"))
+
+
+def gen_C18(rng, tier):
+    dist = {}
+    cases = []
+    dmax = 129
+    for d in range(0, dmax):
+        for v in ((1,) if (tier == "quick" and d % 8 not in (0, 1) and d > 48) else (0, 1, 2)):
+            for cnt in range(0, 5):
+                base = cnt * (d if d else 8)
+                for L in sorted(set([base, base + 1, max(0, base - 1), base + 8, base + d // 2])):
+                    if L > 1024:
+                        continue
+                    if tier == "quick" and v != 1 and L != base:
+                        continue
+                    data = bytearray(marker(L, start=d + cnt))
+                    cases.append(mbi_case(E.mbi([E.t_efi_mmap(d, v, bytes(data))])))
+                    count(dist, "v%d" % v)
+    for d in (0xFFFFFFFF, 0x80000000, 0x10000):
+        cases.append(mbi_case(E.mbi([E.t_efi_mmap(d, 1, bytes(80))])))
+    return cases, dict(
+        rule="mbi: EFI memory map tags for every descriptor size 0..128 x version {0,1,2} x entry count 0..4 x map lengths "
+             "{k*d, k*d+-1, k*d+8, k*d+d/2} with marker descriptor contents (quick: versions 0/2 only at the exact length; "
+             "thorough: all); huge descriptor sizes. Compared: accept/panic, every descriptor (offset, decoded fields), len() after "
+             "every next(). distinct_nontrivial = distinct (domain, model transcript) pairs.",
+        dist=dist, exhaustive=(tier == "thorough"))
+
+
+def gen_C19(rng, tier):
+    dist = {}
+    cases = []
+    types = [0, 1, 2, 3, 8, 11, 12, 0x5FFFFFFF, 0x60000000, 0x6FFFFFFF, 0x70000000, 0x7FFFFFFF, 0x80000000, 0xFFFFFFFF]
+    ess = list(range(0, 129)) if tier == "thorough" else [0, 1, 8, 24, 32, 39, 40, 41, 48, 56, 63, 64, 65, 72, 80, 128]
+    for es in ess:
+        for n in range(0, 5):
+            for sh in range(0, 6):
+                if tier == "quick" and sh > 2 and sh != n and sh != n + 1:
+                    continue
+                base = n * es
+                for L in sorted(set([base, max(0, base - 1), base + 1, base + 8])):
+                    if tier == "quick" and L != base and rng.random() < 0.5:
+                        continue
+                    table = bytearray(rng.getrandbits(8) for _ in range(L))
+                    for k in range(n):
+                        if k * es + 8 <= L:
+                            table[k * es + 4:k * es + 8] = E.u32(rng.choice(types))
+                    cases.append(mbi_case(E.mbi([E.t_elf(n, es, sh, bytes(table))])))
+                    count(dist, "es_%s" % ("40" if es == 40 else "64" if es == 64 else "other"))
+    for (n, es) in ((0xFFFF, 0), (0x10000, 1), (3, 0x80000000), (0x10000, 0x10000), (0xFFFF, 0x10001)):
+        cases.append(mbi_case(E.mbi([E.t_elf(n, es, 0, bytes(64))])))
+    return cases, dict(
+        rule="mbi: ELF sections tags for entry counts 0..4 x entry sizes (thorough: 0..128; quick: 16 values around 40 and 64) x "
+             "string-table indices 0..5 x section byte lengths {n*es, n*es+-1, n*es+8}, raw types drawn from every class boundary, "
+             "random entry contents for both layouts; overflowing count*size products. Compared: accept/panic, every yielded section "
+             "(offset, class, raw type, flags, address, end, size, alignment), remaining count. distinct_nontrivial = distinct "
+             "(domain, model transcript) pairs.",
+        dist=dist, exhaustive=(tier == "thorough"))
+
+
+# ---- header regions --------------------------------------------------------------------------------
+def rand_htag(rng, malformed=0.15):
+    typ = rng.randrange(0, 11)
+    flags = rng.randrange(0, 2)
+    nat = {0: 8, 1: 8 + 4 * rng.randrange(0, 7), 2: 24, 3: 12, 4: 12, 5: 20, 6: 8, 7: 8, 8: 12, 9: 12, 10: 24}[typ]
+    payload = bytearray(marker(nat - 8, start=typ))
+    if typ == 4:
+        payload[0:4] = E.u32(rng.randrange(0, 2))
+    if typ == 10:
+        payload[12:16] = E.u32(rng.randrange(0, 3))
+    size = nat
+    if rng.random() < malformed:
+        size = max(0, nat + rng.choice([-8, -4, -3, -1, 1, 2, 4, 8, 12, 16]))
+        if rng.random() < 0.2:
+            size = rng.choice([0, 4, 7, 0xFFFFFFFF, 0x80000000])
+    return E.htag(typ, flags, bytes(payload), size=size)
+
+
+def gen_hdr_regions(rng, n, dist, malformed=0.15):
+    out = []
+    for _ in range(n):
+        x = rng.random()
+        if x < 0.3:
+            ks = list(range(1, 11))
+            rng.shuffle(ks)
+            tags = []
+            for typ in ks:
+                t = rand_htag(rng, malformed)
+                while int.from_bytes(t[0:2], "little") != typ:
+                    t = rand_htag(rng, malformed)
+                tags.append(t)
+        else:
+            tags = [rand_htag(rng, malformed) for _ in range(rng.choice([0, 1, 2, 3, 5, 8]))]
+        h = bytearray(E.header(tags, arch=rng.choice([0, 4]), end=rng.random() < 0.9))
+        if rng.random() < 0.05:
+            h[8:12] = E.u32(len(h) + rng.choice([-8, 8]))       # wrong length (checksum then mismatches or is recomputed)
+            h[12:16] = E.u32(E.checksum(E.HDR_MAGIC, int.from_bytes(h[4:8], "little"), int.from_bytes(h[8:12], "little")))
+        total = int.from_bytes(h[8:12], "little")
+        if total > len(h) and total < (1 << 20):
+            h += bytes(total - len(h))
+        if total > len(h):
+            continue
+        out.append(bytes(h))
+        count(dist, "header_regions")
+    return out
+
+
+def gen_C11(rng, tier):
+    dist = {}
+    cases = ["hdr " + hx(h) for h in gen_hdr_regions(rng, 3000 if tier == "thorough" else 400, dist, malformed=0.03)]
+    for n in range(0, 25):
+        reqs = b"".join(E.u32(rng.getrandbits(32) if rng.random() < 0.5 else rng.randrange(0, 24)) for _ in range(n))
+        cases.append("hdr " + hx(E.header([E.htag(3, 0, E.u32(7)), E.htag(1, rng.randrange(2), reqs), E.htag(1, 0, E.u32(99))])))
+        count(dist, "request_lists")
+    return cases, dict(
+        rule="hdr (load, walk, all ten typed getters, every accessor): seeded header regions with all 11 tag kinds in random "
+             "orders and multiplicities, byte-marked field values, enum-typed fields in range (3% wrong sizes); information-request "
+             "lists of every length 0..24. distinct_nontrivial = distinct (domain, model transcript) pairs.",
+        dist=dist, exhaustive=False)
+
+
+def gen_C09(rng, tier):
+    dist = {}
+    cases = ["hdr " + hx(h) for h in gen_hdr_regions(rng, 4000 if tier == "thorough" else 500, dist, malformed=0.3)]
+    # every tag size 0..40 and beyond the region for every kind
+    for typ in range(0, 11):
+        for s in list(range(0, 41)) + [48, 64, 0xFFFFFFF8, 0xFFFFFFFF]:
+            n = max(8, (min(s, 64) + 7) // 8 * 8)
+            body = bytearray(marker(n - 8, start=typ + s))
+            if typ == 4 and n >= 12:
+                body[0:4] = E.u32(s % 2)
+            if typ == 10 and n >= 24:
+                body[12:16] = E.u32(s % 3)
+            t = (E.u16(typ) + E.u16(s % 2) + E.u32(s) + bytes(body))[:n]
+            cases.append("hdr " + hx(E.header([t, E.htag(6, 0, b"")])))
+            count(dist, "tag_sizes")
+    return cases, dict(
+        rule="hdr: seeded header regions (30% of the tags with wrong sizes: below 8, not matching the kind, beyond the region); for "
+             "every kind every tag size 0..40 and huge ones; enum-typed fields always in range. Region placed against guard pages "
+             "at its end and at its start. distinct_nontrivial = distinct (domain, model transcript) pairs.",
+        dist=dist, exhaustive=False)
+
+
+HDR_ASSUME = ["enumerated fields (architecture, tag type, tag flags, console flags, relocation preference) hold defined values, as the property presupposes",
+              "the memory made valid for load is max(16, declared length) bytes"]
+
+PROPS.update({
+    "C04": dict(gen=gen_C04, configs=["dev", "rel"], judge=judge_mbi_full, check_model_ub=True,
+                assumptions=["known finding F18 (VBEModeInfo.memory_model byte not in 0..=7) is excluded from 'decodes every field'"]),
+    "C05": dict(gen=gen_C05, configs=["dev", "rel"], judge=judge_mbi_full, both_placements=True, assumptions=[]),
+    "C17": dict(gen=gen_C17, configs=["dev", "rel"], judge=judge_projection(["load", "get", "cmdline", "bootloader", "modinfo", "module", "modules", "ctor", "as_bytes"]),
+                both_placements=True, assumptions=["Rust &str arguments are valid UTF-8 by the type's invariant"]),
+    "C18": dict(gen=gen_C18, configs=["dev", "rel"], judge=judge_projection(["load", "get", "efi_mmap", "efi_desc", "efi_end"]),
+                both_placements=True, assumptions=[]),
+    "C19": dict(gen=gen_C19, configs=["dev", "rel"], judge=judge_projection(["load", "get", "elf", "elf_section", "elf_end"]),
+                both_placements=True, assumptions=["section names (external addresses) are not dereferenced"]),
+    "C09": dict(gen=gen_C09, configs=["dev", "rel"], judge=judge_mbi_full, both_placements=True, check_model_ub=True, assumptions=HDR_ASSUME),
+    "C11": dict(gen=gen_C11, configs=["dev", "rel"], judge=judge_mbi_full, check_model_ub=True, assumptions=HDR_ASSUME),
+})
